@@ -43,13 +43,20 @@ Do(op, a, b) ==
   hist' = << [op |-> op, aseg |-> a.seg, abits |-> a.bits, bseg |-> b.seg, bbits |-> b.bits,
               want |-> Res(op, a, b)] >>
 
-Next == hist = <<>> /\ \E op \in Ops, a \in Rows, b \in Rows : Do(op, a, b)
+\* the n-ary union has its own k-way walk over the segment sequences (Row.Union(others...))
+Do3(a, b, c) ==
+  hist' = << [op |-> "Union3", aseg |-> a.seg, abits |-> a.bits, bseg |-> b.seg, bbits |-> b.bits,
+              cseg |-> c.seg, cbits |-> c.bits, want |-> a.bits \cup b.bits \cup c.bits] >>
+
+Next == /\ hist = <<>>
+        /\ \/ \E op \in Ops \ {"Union3"}, a \in Rows, b \in Rows : Do(op, a, b)
+           \/ "Union3" \in Ops /\ \E a \in Rows, b \in Rows, c \in Rows : Do3(a, b, c)
 
 (* (M) the laws a caller relies on, checked on every generated case *)
 Laws ==
   hist # <<>> =>
     LET h == hist[1] IN
-      /\ h.want \subseteq (h.abits \cup h.bbits)
+      /\ h.op # "Union3" => h.want \subseteq (h.abits \cup h.bbits)
       /\ h.op = "Difference" => (h.want \cap h.bbits = {} /\ h.want \subseteq h.abits)
       /\ h.op = "Intersect"  => (h.want \subseteq h.abits /\ h.want \subseteq h.bbits)
       /\ h.op \in {"Union", "Merge"} => (h.abits \subseteq h.want /\ h.bbits \subseteq h.want)
